@@ -79,7 +79,7 @@ class Gen:
         return ast.JoinedStr(values=vals)
 
 
-DEBUG = ["f'{a=}'", "f'{a = }'", "f'{a=!r}'", "f'{a=:>10}'", "f'{a = !s:^{b}}'", "f'{obj[\"k\"]=}'", "f'''{a=\n}'''", "f'{a+b=}'", "f'{(w:=a)=}'", "f'x={a=}{b=}'", "f'{ a = }'", "f'{a=}' 'plain' f'{b}'",
+DEBUG = ["f'1.0={1!r}'", "f'True={1!r}'", "f'1={1.0!r}'", "f'0={False!r}'", "f'1={True!r}'", "f'0.0={0!r}'", "f'1={1!r}'", "f'-1={-1.0!r}'", "f'1+1={1+1.0!r}'", "f'{1.0=}{1=}{True=}'", "f'{a=}'", "f'{a = }'", "f'{a=!r}'", "f'{a=:>10}'", "f'{a = !s:^{b}}'", "f'{obj[\"k\"]=}'", "f'''{a=\n}'''", "f'{a+b=}'", "f'{(w:=a)=}'", "f'x={a=}{b=}'", "f'{ a = }'", "f'{a=}' 'plain' f'{b}'",
          "f'{f\"{a=}\"}'", "f\"{'=' + a=}\"", "f'{a!r=}'" ]
 
 
